@@ -5,6 +5,12 @@ for d in sorted(glob.glob('/verif/seeded/*/')):
     name = os.path.basename(d.rstrip('/'))
     am = json.load(open(d + 'agent_meta.json')) if os.path.exists(d + 'agent_meta.json') else {}
     r = json.load(open(d + 'result.json')) if os.path.exists(d + 'result.json') else {}
+    if not am and os.path.exists(d + 'NOTES.md'):
+        # round-4 agents wrote NOTES.md instead of a meta file
+        notes = open(d + 'NOTES.md').read()
+        files = sorted(set(re.findall(r'^\+\+\+ b/(\S+)', open(d + 'patch.diff').read(), re.M))) if os.path.exists(d + 'patch.diff') else []
+        am = {'summary': 'see NOTES.md (written by the seeding agent)', 'needs': 'see NOTES.md, section "What is needed for it to show"', 'files': files,
+              'notes_file': 'NOTES.md', 'notes_chars': len(notes)}
     checks = {}
     for f in sorted(glob.glob(d + 'check_*.txt')):
         cid = os.path.basename(f)[6:-4]
